@@ -46,7 +46,9 @@ CLAIM = dict(
          "with, for, {% filter string %} blocks and filtered set blocks, plus recursive for loops (depth 3-4, loop(children) in output, "
          "set blocks, macro arguments, ~) unfolded into terms, under static / select_autoescape / {% autoescape true|false %} / runtime-decided {% autoescape flag %} "
          "configurations, data and literals containing & and all metacharacters; oracle evaluated by the Lean unescape; both renders "
-         "compared with the model.",
+         "compared with the model. The Lean statement does not depend on the rendering mode; the harness additionally runs every "
+         "configuration in async environments (enable_async=True through render(), render_async() and generate_async(), with names read "
+         "through an awaited async data function) and through environments reached by overlays.",
     note="Trusted: Lean kernel; the value-level model (tied by correspondence only; it is not derived from the compiler's code "
          "generator); the spelling of terms as templates; unescape restricted to the five entities.",
     design_ref="§5 C16",
@@ -66,34 +68,37 @@ def make_case(ctx, i, ops=False, lits=LITS, texts=TEXTS, data_pool=DATA, depth=N
     term = g.top(depth if depth is not None else rng.randrange(2, ctx.pick(5, 6)))
     mode = rng.choice(MODES)
     rseed = rng.randrange(1 << 30)
-    return {"i": i, "data": data, "term": term, "mode": mode, "rseed": rseed}
+    api = rng.choice(T.APIS) if rng.random() < 0.6 else "sync"
+    return {"i": i, "data": data, "term": term, "mode": mode, "rseed": rseed, "api": api}
 
 
 def render_case(jinja2, case, on):
     """render the case's term with autoescape on / off in the case's configuration; returns (text or raised:…, templates, used)"""
     import random
 
-    mode = case["mode"]
+    mode, api = case["mode"], case.get("api", "sync")
     r = random.Random(case["rseed"])
     ndata = len(case["data"])
     kw = {f"d{i}": v for i, v in enumerate(case["data"])}
+    kw.update(T.api_context(api))
+    afn = api != "sync"
     if mode == "static":
-        rl = T.Realiser(r, ndata)
+        rl = T.Realiser(r, ndata, async_fn=afn)
         env_kw = dict(autoescape=on)
     elif mode == "select":
-        rl = T.Realiser(r, ndata, suffix=".html" if on else ".txt")
+        rl = T.Realiser(r, ndata, suffix=".html" if on else ".txt", async_fn=afn)
         env_kw = dict(autoescape=jinja2.select_autoescape(enabled_extensions=("html",), disabled_extensions=("txt",), default=not on))
     elif mode == "block":
-        rl = T.Realiser(r, ndata, wrap=("{% autoescape " + ("true" if on else "false") + " %}", "{% endautoescape %}"))
+        rl = T.Realiser(r, ndata, wrap=("{% autoescape " + ("true" if on else "false") + " %}", "{% endautoescape %}"), async_fn=afn)
         env_kw = dict(autoescape=not on)
     else:
-        rl = T.Realiser(r, ndata, wrap=("{% autoescape flag %}", "{% endautoescape %}"))
+        rl = T.Realiser(r, ndata, wrap=("{% autoescape flag %}", "{% endautoescape %}"), async_fn=afn)
         env_kw = dict(autoescape=bool(case["rseed"] & 1))
         kw["flag"] = on
     main = rl.top(case["term"])
-    env = jinja2.Environment(loader=jinja2.DictLoader(rl.templates), **env_kw)
+    env = jinja2.Environment(loader=jinja2.DictLoader(rl.templates), **env_kw, **T.api_env_kw(api))
     try:
-        out = env.get_template(main).render(**kw)
+        out = T.render_api(env.get_template(main), api, kw)
     except Exception as e:  # noqa
         out = f"raised:{type(e).__name__}:{e}"
     return out, rl.templates, rl.used
@@ -147,10 +152,10 @@ def run_recursive(ctx, res, jinja2):
         form = rng.choice(sorted(LOOP_FORMS))
         tree = gen_tree(rng, rng.randrange(3, 5))
         w = rng.choice(DATA)
-        cases.append((form, tree, w, rng.choice(MODES), rng.randrange(2)))
-    replies = core.driver_batch([[Atom("autoesc"), Atom("eval"), T.enc(unfold(f, t, w)), []] for f, t, w, _, _ in cases])
+        cases.append((form, tree, w, rng.choice(MODES), rng.randrange(2), rng.choice(T.APIS)))
+    replies = core.driver_batch([[Atom("autoesc"), Atom("eval"), T.enc(unfold(f, t, w)), []] for f, t, w, _, _, _ in cases])
     renders = []
-    for form, tree, w, mode, bit in cases:
+    for form, tree, w, mode, bit, api in cases:
         outs = []
         for on in (True, False):
             src, kw, name = LOOP_FORMS[form], {"tree": tree, "w": w}, "t"
@@ -167,15 +172,17 @@ def run_recursive(ctx, res, jinja2):
                 env_kw = dict(autoescape=bool(bit))
                 kw["flag"] = on
             try:
-                outs.append(jinja2.Environment(loader=jinja2.DictLoader({name: src}), **env_kw).get_template(name).render(**kw))
+                env = jinja2.Environment(loader=jinja2.DictLoader({name: src}), **env_kw, **T.api_env_kw(api))
+                outs.append(T.render_api(env.get_template(name), api, kw))
             except Exception as e:  # noqa
                 outs.append(f"raised:{type(e).__name__}:{e}")
         renders.append(outs)
     unesc = core.driver_batch([[Atom("autoesc"), Atom("unescape"), on if not on.startswith("raised:") else ""] for on, _ in renders])
     nontrivial = 0
-    for (form, tree, w, mode, bit), rep, (on, off), un in zip(cases, replies, renders, unesc):
+    for (form, tree, w, mode, bit, api), rep, (on, off), un in zip(cases, replies, renders, unesc):
         m_on, m_off, neutral, _, _ = rep[1]
-        replay = {"loop_form": form, "src": LOOP_FORMS[form], "tree": tree, "w": w, "mode": mode, "env_default": bool(bit)}
+        replay = {"loop_form": form, "src": LOOP_FORMS[form], "tree": tree, "w": w, "mode": mode, "env_default": bool(bit), "api": api}
+        mode = mode + ("" if api == "sync" else ":" + api)
         if neutral is not True:
             raise core.HarnessError("recursive-loop unfolding left the neutral fragment")
         if on.startswith("raised:") or off.startswith("raised:"):
@@ -198,9 +205,10 @@ def run_envways(ctx, res, jinja2):
     data = {"x": rng.choice(["a&amp;b<m1>", "&lt;<"]), "y": rng.choice(["&#39;<", "&amp;&"])}
     uses = []
     for k, sc in enumerate(scenarios):
-        for way, i, kind, name, out, fresh in W.execute(jinja2, sc, data):
+        api = T.APIS[k % len(T.APIS)]
+        for way, i, kind, name, out, fresh in W.execute(jinja2, sc, data, api):
             if name in ("page.html", "child.html") and W.effective_on(kind, name) and not out.startswith("raised:"):
-                uses.append((k, way, kind, name, out))
+                uses.append((k, way + ("" if api == "sync" else ":" + api), kind, name, out))
     # page.html / child.html use only escaping-neutral constructs apart from |upper: compare on a variant without it
     off = {}
     for name in ("page.html", "child.html"):
@@ -241,19 +249,22 @@ def run(ctx, res):
         sizes.append(T.size(c["term"]))
     unesc = core.driver_batch([[Atom("autoesc"), Atom("unescape"), on if not on.startswith("raised:") else ""] for on, _, _ in rendered])
     nontrivial = set()
+    apis = {}
     for c, rep, (on, off, tpl), un in zip(cases, replies, rendered, unesc):
         m_on, m_off, neutral, m_un, _ = rep[1]
         if neutral is not True:
             raise core.HarnessError("generator left the neutral fragment")
-        replay = {"case": c["i"], "mode": c["mode"], "data": c["data"], "templates": tpl, "term": core.sx(T.enc(c["term"]))}
+        replay = {"case": c["i"], "mode": c["mode"], "api": c["api"], "data": c["data"], "templates": tpl, "term": core.sx(T.enc(c["term"]))}
+        cfg = c["mode"] + ("" if c["api"] == "sync" else ":" + c["api"])
+        apis[c["api"]] = apis.get(c["api"], 0) + 1
         if on.startswith("raised:") or off.startswith("raised:"):
             res.violate(f"C16:render-raised:{c['mode']}", f"render raised: on={on[:120]!r} off={off[:120]!r}", replay, no_input=True)
             continue
         if on != off:
             nontrivial.add((core.sx(T.enc(c["term"])), tuple(c["data"]), c["mode"]))
         if un[1] != off:
-            res.violate(f"C16:once:{c['mode']}", f"unescape(render with autoescape) = {un[1]!r} but render without = {off!r} "
-                        f"(autoescaped render {on!r}; mode {c['mode']}; main template {tpl[[k for k in tpl if k.startswith('main')][0]]!r})", replay)
+            res.violate(f"C16:once:{cfg}", f"unescape(render with autoescape) = {un[1]!r} but render without = {off!r} "
+                        f"(autoescaped render {on!r}; configuration {cfg}; main template {tpl[[k for k in tpl if k.startswith('main')][0]]!r})", replay)
         elif on != m_on or off != m_off:
             res.violate("C16:model-difference", f"mode {c['mode']}: render on/off = {on!r} / {off!r}, model {m_on!r} / {m_off!r} "
                         "(the once-oracle still holds on this case)", replay, no_input=True)
@@ -271,6 +282,7 @@ def run(ctx, res):
         "samples": [{"term": core.sx(T.enc(c["term"])), "data": c["data"], "mode": c["mode"], "templates": rendered[j][2]}
                     for j, c in list(enumerate(cases))[:2]],
         "mode_distribution": modes,
+        "api_distribution": apis,
         "spellings_used": used_all,
         "constructor_distribution": kinds,
         "term_size": {"min": min(sizes), "max": max(sizes), "mean": round(sum(sizes) / len(sizes), 1)},
